@@ -40,7 +40,7 @@ CONFIG = dict(
     min_nontrivial={"quick": 1500, "thorough": 20000},
     nshards={"quick": 8, "thorough": 16},
     timeout={"quick": 900, "thorough": 5400},
-    required_counters=("threaded_load_rounds", "threaded_yields_injected", "worker_thread_loads", "rewritten_file_loads", "unwritable_report_loads", "gate_checks", "returned_loads_compared", "nonreturning_effect_checks",
+    required_counters=("reentrant_loads", "threaded_load_rounds", "threaded_yields_injected", "worker_thread_loads", "rewritten_file_loads", "unwritable_report_loads", "gate_checks", "returned_loads_compared", "nonreturning_effect_checks",
                        "failpoints_fired", "toctou_swaps", "executed_vs_analysed_compared", "sequence_probes"),
 )
 
@@ -913,8 +913,67 @@ def threaded_loads(ctx, mods):
     del vp_sink.LOG[:]
 
 
+def reentrant_loads(ctx, mods):
+    """A checked load whose own unpickling step calls the (hooked) loader again - the pickle names `pickle.load` and
+    hands it a stream of inner bytes.  The nested call is a checked load like any other: an inner pickle above the
+    accepted severity is refused and nothing of it runs, however the outer one was rated.
+    (fixed byte strings only: collections.OrderedDict, pickle.load, io.BytesIO around vp_sink.hit / plain data)"""
+    import vp_sink
+    fickling, f, analysis, loader, hook, U = mods
+    agg = ctx.agg
+    inners = [("flagged-sink", b"cvp_sink\nhit\n(S'inner'\ntR."), ("flagged-sink-p2", b"\x80\x02cvp_sink\nhit\nK\x07\x85R."),
+              ("benign", pickle.dumps([1, 2, 3], 2))]
+
+    def nested(inner):
+        call = b"cpickle\nload\n(cio\nBytesIO\n(B" + len(inner).to_bytes(4, "little") + inner + b"tRtR"
+        return [("state-of-ordereddict", b"ccollections\nOrderedDict\n)R" + call + b"b."),
+                ("bare-call", call + b"."), ("in-list", b"]" + call + b"a.")]
+    for iname, inner in inners:
+        try:
+            inner_verdict = analysis.check_safety(f.Pickled.load(inner)).severity.name
+        except Exception:
+            continue
+        for oname, outer in nested(inner):
+            try:
+                outer_verdict = analysis.check_safety(f.Pickled.load(outer)).severity.name
+            except Exception:
+                continue
+            for path in ("hook", "context"):
+                key = h(repr(("reentrant", iname, oname, path)).encode())
+                if not ctx.mine(key.encode()) or not agg.case(key, True, {"reentrant": oname, "inner": iname, "path": path,
+                                                                         "outer_verdict": outer_verdict, "inner_verdict": inner_verdict}):
+                    continue
+                del vp_sink.LOG[:]
+                try:
+                    if path == "hook":
+                        fickling.always_check_safety()
+                        try:
+                            out = ("ret", pickle.load(io.BytesIO(outer)))
+                        finally:
+                            hook.remove_hook()
+                    else:
+                        with fickling.check_safety():
+                            out = ("ret", pickle.load(io.BytesIO(outer)))
+                except U as e:
+                    out = ("unsafe", e.info.get("severity"))
+                except Exception as e:
+                    out = ("exc", type(e).__name__)
+                finally:
+                    pickle.load, pickle.loads = ORIG_PICKLE_LOAD, ORIG_PICKLE_LOADS
+                log = list(vp_sink.LOG)
+                del vp_sink.LOG[:]
+                agg.count("reentrant_loads")
+                agg.hist("reentrant_outcomes", f"outer {outer_verdict} inner {inner_verdict}: {out[0]}")
+                if inner_verdict != "LIKELY_SAFE" and (log or out[0] == "ret"):
+                    agg.violation(f"reentrant-load-unchecked:{path}",
+                                  f"outer pickle ({outer_verdict}) calls pickle.load on inner bytes rated {inner_verdict} while the check is armed: "
+                                  f"outcome {out!r}, calls made {log[:2]!r}"[:300],
+                                  {"label": f"reentrant-{oname}-{iname}", "hex": outer.hex(), "path": path, "threshold": "LIKELY_SAFE", "reentrant": True})
+
+
 def run_shard(ctx):
     mods, watch = setup(ctx)
+    reentrant_loads(ctx, mods)
     threaded_loads(ctx, mods)
     file_rewrite_histories(ctx, mods)
     unwritable_report(ctx, mods)
@@ -936,6 +995,10 @@ def replay(ctx, payload):
         return
     if c.get("threaded"):
         threaded_loads(ctx, mods)
+        return
+    if c.get("reentrant"):
+        ctx.mine = lambda b: True
+        reentrant_loads(ctx, mods)
         return
     fault = tuple(c["fault"]) if c.get("fault") else None
     run_case(ctx, mods, watch, c.get("label", "replay"), bytes.fromhex(c["hex"]), c["threshold"], c["path"],
